@@ -65,7 +65,11 @@ META = {
         'judged for pinv / splu / None (zero result) and skipped for lu / cholesky (singular: nan / LinAlgError)',
         'splu "tolerates identically zero rows and columns": judged when the index sets of zero rows and zero columns '
         'coincide and the remaining principal submatrix is nonsingular (then x = A^+ b: zero there, exact on the rest)',
-        'b has the dtype of A (what the cycle passes); ill-conditioned instances (cond > 1e6) are skipped and counted',
+        'right-hand sides also come with a dtype different from the matrix (complex A with float64 / float32 / int b, real A with '
+        'complex128 / complex64 / float32 / int b; every solver name, both shapes, fixed + random histories): every value that is '
+        'returned must be the solution in a wide-enough dtype; an explicit TypeError / ValueError for the dtype combination '
+        '(relaxation kernels, SuperLU with a real factor and complex b; any exception of a Krylov routine) counts as a rejected input, not as a wrong '
+        'answer; ill-conditioned instances (cond > 1e6) are skipped and counted',
     ],
 }
 
@@ -108,7 +112,7 @@ class Mat:
         n = self.n
         rows, cols = np.nonzero(self.M)
         data = self.M[rows, cols]
-        ex = [(i, j) for (i, j) in self.explicit if self.M[i, j] == 0]
+        ex = sorted({(i, j) for (i, j) in self.explicit if self.M[i, j] == 0})     # canonical CSR: no duplicate entries
         if ex:
             rows = np.concatenate([rows, [e[0] for e in ex]])
             cols = np.concatenate([cols, [e[1] for e in ex]])
@@ -869,7 +873,11 @@ def _judge_one(ctx, mats, spec, calls, inf, seed):
         mixed = np.asarray(b).dtype != Ak.M.dtype
         if mixed:
             ctx.feat(f'mixed-dtype:A-{Ak.M.dtype}:b-{np.asarray(b).dtype}')
-            if r['exc'] is not None and r['exc'].startswith(('TypeError', 'ValueError')):
+            if r['exc'] is not None and (r['exc'].startswith(('TypeError', 'ValueError')) or name in KRYLOV):
+                if m[0] == 'err':
+                    any_model_err = True
+                    if m[1] in ('singular', 'not-hpd'):
+                        undefined = True
                 # the code refuses the dtype combination (relaxation kernels, SuperLU, SciPy minres): an explicit
                 # rejection, not a wrong answer; what is judged for mixed dtypes is every value that IS returned
                 ctx.feat('mixed-dtype-rejected:' + str(name))
@@ -894,6 +902,8 @@ def _judge_one(ctx, mats, spec, calls, inf, seed):
                     tol = TOL * max(fk['cond'], 1.0) * scale * 10
                     if name in RELAX:
                         tol = 1e-9 * scale
+                    if x.dtype in (np.float32, np.complex64):
+                        tol = max(tol, 1e-5 * scale)       # a single-precision result (callable / None on a float32 b)
                     if fk['cond'] > 1e6:
                         ctx.near_skipped += 1
                     else:
@@ -1019,7 +1029,8 @@ def _judge_call(ctx, out, ci, Ak, fk, spec, c, r, X, inv_ok, hpd, viol):
         if exc is not None:
             raised_is_violation()
             return
-        if not np.allclose(x.ravel(), want, rtol=1e-12, atol=1e-13, equal_nan=True):
+        rt = 1e-5 if x.dtype in (np.float32, np.complex64) else 1e-12
+        if not np.allclose(x.ravel(), want, rtol=rt, atol=1e-13, equal_nan=True):
             viol(f'{tag}: returned {x.ravel()[:6]}, the callable (with its keyword arguments) gives {want[:6]}')
         return
     if name in KRYLOV:
